@@ -2,7 +2,8 @@ import GqlModel.Validate.Engine
 /-
   rules/overlapping_fields_can_be_merged.go  (the POLYNOMIAL repair: the manager keeps, besides the
   fragment-pair memo `comparedFragmentPairs`, the memo `comparedFieldsAndFragmentPairs` of the
-  (selection set, fragment name, exclusive) comparisons already made or under way;
+  (selection set, fragment name, exclusive) comparisons already made or under way during the
+  current `findConflictsWithinSelectionSet` call (it is made afresh for every such call);
   `collectConflictsBetweenFieldsAndFragment` consults it first thing; there is no per-call
   `comparedFragments` map and no in-progress set in `findConflict` any more; "do not compare a
   fragment's fieldMap to itself" is an identity test; `sameValue` compares `Children`;
@@ -238,8 +239,8 @@ def Pairs.has (p : Pairs) (a b : Name) (excl : Bool) : Bool :=
 /-- `fieldsAndFragmentPair`: (identity of the selection set, fragment name, exclusive) -/
 abbrev FragKey := Option Nat × Name × Bool
 
-/-- the manager: `comparedFragmentPairs`, `comparedFieldsAndFragmentPairs` (the keys present), and
-    the ghost step counter -/
+/-- the manager: `comparedFragmentPairs` (per rule instance), `comparedFieldsAndFragmentPairs` (the
+    keys present; reset by every `findConflictsWithinSelectionSet`), and the ghost step counter -/
 structure OSt where
   pairs : Pairs
   seen : List FragKey
@@ -472,11 +473,14 @@ def selsEmpty : Selections → Bool
   | .nil => true
   | .cons _ _ => false
 
-/-- `findConflictsWithinSelectionSet` -/
+/-- `findConflictsWithinSelectionSet`: the memo of (selection set, fragment) comparisons is made
+    afresh for every top-level comparison (the walker links fields as it goes, so a comparison made
+    for an earlier observer call may have seen fields that were not linked yet) -/
 def findConflictsWithinSelectionSet (env : Env) (fc : FC) (parent : Option Definition) (sels : Selections)
-    (st : OSt) : Option (OSt × List Conflict) :=
-  if selsEmpty sels then some (st, [])
+    (st0 : OSt) : Option (OSt × List Conflict) :=
+  if selsEmpty sels then some (st0, [])
   else
+    let st : OSt := { st0 with seen := [] }
     let A := getFieldsAndFragmentNames env.s env.l parent sels
     match collectConflictsWithin fc A.1.map st with
     | none => none
